@@ -800,10 +800,23 @@ def WF (p : Program) : Prop :=
 /-- the program has no projection node -/
 def NoProj (p : Program) : Prop := ∀ (k : Key) (d : NodeDef), p[k]? = some d → d.kind ≠ .projection
 
+/-- the executor reads exactly the keys `ks`, in this order, whatever the values it reads -/
+def ProgStatic : Prog → List Key → Prop
+  | .ret _, ks => ks = []
+  | .ask d cont, ks => ∃ rest, ks = d :: rest ∧ ∀ v, ProgStatic (cont v) rest
+  | .askAll ks' cont, ks => ∃ rest, ks = ks' ++ rest ∧ ∀ vs, ProgStatic (cont vs) rest
+
+/-- every projection has a value-independent read sequence (projections may read projections) -/
+def StaticProj (p : Program) : Prop :=
+  ∀ (k : Key) (d : NodeDef), p[k]? = some d → d.kind = .projection → ∃ ks, ProgStatic d.prog ks
+
 /-- every projection reads firewalls only (no projection over a projection) -/
 def NoProjOverProj (p : Program) : Prop :=
   ∀ (k : Key) (d : NodeDef), p[k]? = some d → d.kind = .projection →
     ProgAll (fun x => kindOf p x = some .firewall) d.prog
+
+/-- the two program classes the C01 / C03 theorems of the extended core model are proved for -/
+def Shape (p : Program) : Prop := NoProjOverProj p ∨ StaticProj p
 
 -- ------------------------------------------------------------------ bridge from the full model's programs
 
